@@ -137,6 +137,17 @@ def run_binary_more(ctx):
         s = b"".join(B.le(rng.choice([B.OPEN, B.CLOSE]), 2) for _ in range(rng.randrange(1, 5)))
         toks = [("O",), ("C",), ("O",), ("O",), ("C",), ("U", s), ("BOOL", True), ("C",), ("O",), ("Q", s), ("EQ",), ("RGB", (3, 4, 0x00040003)), ("C",), ("I32", 4)]
         docs.append(b"".join(B.enc(t) for t in toks))
+    # every payload kind filled with words that are themselves lexeme ids (open, close, and ids that announce a payload)
+    idw = [B.OPEN, B.CLOSE, B.QUOTED, B.U32, B.I64, B.BOOL, B.RGB, B.U64, B.F64]
+    for _ in range(ctx.scale(80, 800)):
+        w = lambda n: b"".join(B.le(rng.choice(idw), 2) for _ in range(n))
+        pay = [("I64", int.from_bytes(w(4), "little", signed=True)), ("U64", int.from_bytes(w(4), "little")), ("F64", w(4)),
+               ("I32", int.from_bytes(w(2), "little", signed=True)), ("U32", int.from_bytes(w(2), "little")), ("F32", w(2)),
+               ("Q", w(rng.randrange(1, 4))), ("U", w(rng.randrange(1, 4)) + b"\x03"), ("BOOL", True),
+               ("RGB", (int.from_bytes(w(2), "little"), 4, 3) + ((int.from_bytes(w(2), "little"),) if rng.random() < 0.5 else ()))]
+        rng.shuffle(pay)
+        toks = [("O",)] + pay[:5] + [("O",)] + pay[5:] + [("C",), ("C",), ("T", 11), ("O",), ("C",), ("T", 12)]
+        docs.append(b"".join(B.enc(t) for t in toks))
     tc = ["bl.lops\t%s\tT" % hexs(d) for d in docs]
     timpl, _ = ctx.correspond("tokens_more", tc, nontrivial=lambda c, i: " " in i)
     tbase = len(timpl) - len(tc)
